@@ -271,7 +271,7 @@ func checkAbortAttribution(c *Ctx, r *Run) {
 			var verifyCall *ssa.Call
 			if dependsOn(src, func(v ssa.Value) bool {
 				cc, ok := v.(*ssa.Call)
-				if ok && cc.Call.StaticCallee() != nil && (cc.Call.StaticCallee().Name() == "verifyMessage" || cc.Call.StaticCallee().Name() == "verifyBroadcastMessage") {
+				if ok && cc.Call.StaticCallee() != nil && (canonFnName(cc.Call.StaticCallee()) == "verifyMessage" || canonFnName(cc.Call.StaticCallee()) == "verifyBroadcastMessage") {
 					verifyCall = cc
 					return true
 				}
